@@ -158,12 +158,40 @@ fn run_cur<C: Cur>(c: &mut C, ops: &[COp]) -> String {
     format!("{} | {} {} {} {}", outs.join(","), crate::term::hex(&b), l, p, if ptr == 0 { "ptrok" } else { "ptrbad" })
 }
 
+/// observers that have no counterpart in the standard cursor must be consistent with the ones that have: `is_empty`,
+/// `as_bytes_mut`, a clone, `into_parts`
+fn observers_ok<T: maligned::Alignment>(c: &mut AlignedCursor<T>) -> bool {
+    let l = c.len();
+    let bytes = c.as_bytes().to_vec();
+    let mut ok = c.is_empty() == (l == 0) && bytes.len() == l && c.as_bytes_mut().to_vec() == bytes;
+    let mut k = c.clone();
+    ok &= k.len() == l && k.position() == c.position() && k.as_bytes() == &bytes[..];
+    let (v, n) = k.into_parts();
+    ok &= n == l && v.len() * core::mem::size_of::<T>() >= l;
+    let raw = unsafe { core::slice::from_raw_parts(v.as_ptr() as *const u8, l.min(v.len() * core::mem::size_of::<T>())) };
+    ok && raw == &bytes[..]
+}
+
+fn run_acur<T: maligned::Alignment>(init: &str, ops: &[COp]) -> String {
+    // `c<n>`: with_capacity(n); `d`: default(); otherwise new()
+    let mut c = match init.strip_prefix('c') {
+        Some(n) => AlignedCursor::<T>::with_capacity(n.parse().unwrap_or(0)),
+        None if init == "d" => AlignedCursor::<T>::default(),
+        None => AlignedCursor::<T>::new(),
+    };
+    let r = run_cur(&mut c, ops);
+    let obs = crate::catch(|| observers_ok(&mut c)).unwrap_or(false);
+    if obs { r } else { format!("{} obsbad", r) }
+}
+
 pub fn cursor_op(align: &str, ops: &str) -> String {
     let Some(ops) = parse_cops(ops) else { return "badops".into() };
-    let a = match align {
-        "16" => run_cur(&mut AlignedCursor::<maligned::A16>::new(), &ops),
-        "32" => run_cur(&mut AlignedCursor::<maligned::A32>::new(), &ops),
-        "64" => run_cur(&mut AlignedCursor::<maligned::A64>::new(), &ops),
+    let digits: String = align.chars().take_while(|c| c.is_ascii_digit()).collect();
+    let init = &align[digits.len()..];
+    let a = match digits.as_str() {
+        "16" => run_acur::<maligned::A16>(init, &ops),
+        "32" => run_acur::<maligned::A32>(init, &ops),
+        "64" => run_acur::<maligned::A64>(init, &ops),
         _ => return "badalign".into(),
     };
     let s = run_cur(&mut std::io::Cursor::new(Vec::<u8>::new()), &ops);
